@@ -1,10 +1,55 @@
 package interp
 
-// placeholder until the JSON model is written
-type jsonBlob struct{ raw []byte }
+// Tree-level model of encoding/json.  Marshal produces a tree (jnode)
+// whose scalar leaves may be symbolic; []byte results are a one-element
+// slice holding a *jsonBlob.  Unmarshal is type-directed over the tree.
+// Custom (Un)MarshalJSON methods of package sod are executed as real SSA.
+
+import (
+	"bytes"
+	"encoding/json"
+	"fmt"
+	"go/token"
+	"go/types"
+	"reflect"
+	"sort"
+	"strconv"
+	"strings"
+
+	"golang.org/x/tools/go/ssa"
+)
+
+type jkind int
+
+const (
+	jNull jkind = iota
+	jBool
+	jNum
+	jStr
+	jArr
+	jObj
+	jTime // RFC3339 string of a time.Time, carrying its UnixNano value
+)
+
+type jnode struct {
+	kind    jkind
+	b       value   // jBool: bool or symv
+	num     value   // jNum: exact numeric value (any int/uint/float kind, concrete or symv); nil when numText is set
+	numText string  // jNum parsed from concrete text
+	str     value   // jStr: string or symstr
+	arr     []*jnode
+	keys    []string
+	vals    []*jnode
+	timeV   value // jTime: time.Time structure
+}
+
+type jsonBlob struct {
+	raw     []byte // concrete bytes (golden files, harness-written files)
+	node    *jnode // model tree
+	garbage bool   // not JSON at all (e.g. gzip bytes read raw)
+}
 
 func (*jsonBlob) isModel() {}
-func (b *jsonBlob) text() string { return string(b.raw) }
 
 func blobOf(x []value) *jsonBlob {
 	if len(x) == 1 {
@@ -13,4 +58,952 @@ func blobOf(x []value) *jsonBlob {
 		}
 	}
 	return nil
+}
+
+func (b *jsonBlob) text() string {
+	if b.garbage {
+		return "\x1f\x8b<gzip>"
+	}
+	if b.node != nil {
+		var sb strings.Builder
+		b.node.render(&sb)
+		return sb.String()
+	}
+	return string(b.raw)
+}
+
+func (n *jnode) render(sb *strings.Builder) {
+	switch n.kind {
+	case jNull:
+		sb.WriteString("null")
+	case jBool:
+		if v, ok := n.b.(bool); ok {
+			fmt.Fprintf(sb, "%v", v)
+		} else {
+			sb.WriteString("<symbool>")
+		}
+	case jNum:
+		if n.numText != "" {
+			sb.WriteString(n.numText)
+		} else if _, ok := n.num.(symv); ok {
+			sb.WriteString("<symnum>")
+		} else {
+			fmt.Fprintf(sb, "%v", n.num)
+		}
+	case jStr:
+		if s, ok := n.str.(string); ok {
+			b, _ := json.Marshal(s)
+			sb.Write(b)
+		} else {
+			sb.WriteString("\"<symstr>\"")
+		}
+	case jTime:
+		sb.WriteString("\"<time>\"")
+	case jArr:
+		sb.WriteByte('[')
+		for k, e := range n.arr {
+			if k > 0 {
+				sb.WriteByte(',')
+			}
+			e.render(sb)
+		}
+		sb.WriteByte(']')
+	case jObj:
+		sb.WriteByte('{')
+		for k := range n.keys {
+			if k > 0 {
+				sb.WriteByte(',')
+			}
+			b, _ := json.Marshal(n.keys[k])
+			sb.Write(b)
+			sb.WriteByte(':')
+			n.vals[k].render(sb)
+		}
+		sb.WriteByte('}')
+	}
+}
+
+// parseRaw turns concrete JSON text into a tree (numbers keep their text).
+func parseRaw(raw []byte) (*jnode, error) {
+	dec := json.NewDecoder(bytes.NewReader(raw))
+	dec.UseNumber()
+	var v interface{}
+	if err := dec.Decode(&v); err != nil {
+		return nil, err
+	}
+	if dec.More() {
+		return nil, fmt.Errorf("invalid character after top-level value")
+	}
+	// key order: re-scan with tokens to keep source order is unnecessary; decoding is order independent
+	return fromGo(v), nil
+}
+
+func fromGo(v interface{}) *jnode {
+	switch v := v.(type) {
+	case nil:
+		return &jnode{kind: jNull}
+	case bool:
+		return &jnode{kind: jBool, b: v}
+	case json.Number:
+		return &jnode{kind: jNum, numText: string(v)}
+	case string:
+		return &jnode{kind: jStr, str: v}
+	case []interface{}:
+		n := &jnode{kind: jArr, arr: []*jnode{}}
+		for _, e := range v {
+			n.arr = append(n.arr, fromGo(e))
+		}
+		return n
+	case map[string]interface{}:
+		n := &jnode{kind: jObj}
+		ks := make([]string, 0, len(v))
+		for k := range v {
+			ks = append(ks, k)
+		}
+		sort.Strings(ks)
+		for _, k := range ks {
+			n.keys = append(n.keys, k)
+			n.vals = append(n.vals, fromGo(v[k]))
+		}
+		return n
+	}
+	panic("fromGo")
+}
+
+// ---------- errors ----------
+
+func (i *interpreter) jsonErr(typ, msg string) value {
+	return iface{t: i.env.libPtrType("encoding/json", typ), v: &modelErr{msg: "json: " + msg, kind: "json:" + typ}}
+}
+
+// ---------- marshal ----------
+
+type jsonField struct {
+	name      string
+	index     []int
+	typ       types.Type
+	omitEmpty bool
+	quoted    bool
+}
+
+// structFields lists the JSON-visible fields of a struct type following
+// encoding/json's rules (exported, tags, embedded structs flattened).
+func structFields(t types.Type) []jsonField {
+	st := t.Underlying().(*types.Struct)
+	var out []jsonField
+	for k := 0; k < st.NumFields(); k++ {
+		f := st.Field(k)
+		tag := reflect.StructTag(st.Tag(k)).Get("json")
+		if tag == "-" {
+			continue
+		}
+		name, opts, _ := strings.Cut(tag, ",")
+		if f.Anonymous() && name == "" {
+			ft := f.Type()
+			if p, ok := ft.Underlying().(*types.Pointer); ok {
+				ft = p.Elem()
+			}
+			if _, ok := ft.Underlying().(*types.Struct); ok && !isTimeType(ft) {
+				if !f.Exported() {
+					// unexported embedded struct: only its exported fields are promoted
+				}
+				for _, sf := range structFields(ft) {
+					sf.index = append([]int{k}, sf.index...)
+					out = append(out, sf)
+				}
+				continue
+			}
+		}
+		if !f.Exported() {
+			continue
+		}
+		if name == "" {
+			name = f.Name()
+		}
+		jf := jsonField{name: name, index: []int{k}, typ: f.Type()}
+		for _, o := range strings.Split(opts, ",") {
+			switch o {
+			case "omitempty":
+				jf.omitEmpty = true
+			case "string":
+				jf.quoted = true
+			}
+		}
+		out = append(out, jf)
+	}
+	return out
+}
+
+func isTimeType(t types.Type) bool {
+	n, ok := t.(*types.Named)
+	return ok && n.Obj().Pkg() != nil && n.Obj().Pkg().Path() == "time" && n.Obj().Name() == "Time"
+}
+
+func (i *interpreter) findMethod(t types.Type, name string) *ssa.Function {
+	ms := i.prog.MethodSets.MethodSet(t)
+	for k := 0; k < ms.Len(); k++ {
+		sel := ms.At(k)
+		if sel.Obj().Name() == name {
+			return i.prog.MethodValue(sel)
+		}
+	}
+	return nil
+}
+
+func isEmptyValue(t types.Type, v value) bool {
+	switch u := t.Underlying().(type) {
+	case *types.Basic:
+		if containsSym(v) {
+			unsupportedf("omitempty on a symbolic value")
+		}
+		z := isZeroVal(t, v)
+		return z.IsConst && z.CBits == 1
+	case *types.Pointer, *types.Interface:
+		z := isZeroVal(t, v)
+		return z.CBits == 1
+	case *types.Slice:
+		return len(v.([]value)) == 0
+	case *types.Map:
+		return v.(*omap).len() == 0
+	case *types.Array:
+		return u.Len() == 0
+	}
+	return false
+}
+
+type jsonMarshalErr struct{ err value }
+
+// marshalValue encodes (t,v).  addressable tells whether pointer-receiver
+// marshalers apply to non-pointer values.
+func (i *interpreter) marshalValue(fr *frame, t types.Type, v value, addr *value, depth int) *jnode {
+	if depth > 60 {
+		unsupportedf("json.Marshal recursion too deep")
+	}
+	// Marshaler on T (value receiver or pointer type itself)
+	if _, isPtr := t.Underlying().(*types.Pointer); isPtr {
+		if p, ok := v.(*value); ok && p == nil {
+			return &jnode{kind: jNull}
+		}
+	}
+	if _, isIface := t.Underlying().(*types.Interface); !isIface {
+		if m := i.findMethod(t, "MarshalJSON"); m != nil {
+			return i.callMarshaler(fr, m, v)
+		}
+		if addr != nil {
+			if m := i.findMethod(types.NewPointer(t), "MarshalJSON"); m != nil {
+				return i.callMarshaler(fr, m, addr)
+			}
+		}
+	}
+	switch u := t.Underlying().(type) {
+	case *types.Basic:
+		switch {
+		case u.Kind() == types.Bool:
+			return &jnode{kind: jBool, b: v}
+		case u.Kind() == types.String:
+			return &jnode{kind: jStr, str: v}
+		case u.Info()&types.IsFloat != 0:
+			if sv, ok := v.(symv); ok {
+				bad := tOr(mkApp(sortBool, "fp.isNaN", sv.t), mkApp(sortBool, "fp.isInfinite", sv.t))
+				if i.decide(bad, "json-float-unsupported") {
+					panic(jsonMarshalErr{i.jsonErr("UnsupportedValueError", "unsupported value: NaN or Inf")})
+				}
+			} else {
+				f := 0.0
+				switch x := v.(type) {
+				case float64:
+					f = x
+				case float32:
+					f = float64(x)
+				}
+				if f != f || f > 1.7976931348623157e308 || f < -1.7976931348623157e308 {
+					panic(jsonMarshalErr{i.jsonErr("UnsupportedValueError", "unsupported value: "+strconv.FormatFloat(f, 'g', -1, 64))})
+				}
+			}
+			return &jnode{kind: jNum, num: v}
+		case u.Info()&types.IsInteger != 0:
+			return &jnode{kind: jNum, num: v}
+		}
+		panic(jsonMarshalErr{i.jsonErr("UnsupportedTypeError", "unsupported type: "+t.String())})
+	case *types.Pointer:
+		p := v.(*value)
+		return i.marshalValue(fr, u.Elem(), load(u.Elem(), p), p, depth+1)
+	case *types.Interface:
+		it := v.(iface)
+		if it.t == nil {
+			return &jnode{kind: jNull}
+		}
+		return i.marshalValue(fr, it.t, it.v, nil, depth+1)
+	case *types.Struct:
+		if isTimeType(t) {
+			return &jnode{kind: jTime, timeV: copyVal(v)}
+		}
+		s := v.(structure)
+		n := &jnode{kind: jObj}
+		for _, jf := range structFields(t) {
+			ft, fv, faddr, ok := walkIndex(t, s, addr, jf.index)
+			if !ok {
+				continue // nil embedded pointer
+			}
+			if jf.omitEmpty && isEmptyValue(ft, fv) {
+				continue
+			}
+			n.keys = append(n.keys, jf.name)
+			n.vals = append(n.vals, i.marshalValue(fr, ft, fv, faddr, depth+1))
+		}
+		return n
+	case *types.Slice:
+		sl := v.([]value)
+		if sl == nil {
+			return &jnode{kind: jNull}
+		}
+		if b, ok := u.Elem().Underlying().(*types.Basic); ok && b.Kind() == types.Byte {
+			if blob := blobOf(sl); blob != nil {
+				unsupportedf("json.Marshal of a []byte holding a JSON blob")
+			}
+			raw := make([]byte, len(sl))
+			for k, e := range sl {
+				c, ok := e.(uint8)
+				if !ok {
+					unsupportedf("json.Marshal of symbolic []byte")
+				}
+				raw[k] = c
+			}
+			enc, _ := json.Marshal(raw)
+			return &jnode{kind: jStr, str: string(enc[1 : len(enc)-1])}
+		}
+		n := &jnode{kind: jArr, arr: []*jnode{}}
+		for k := range sl {
+			n.arr = append(n.arr, i.marshalValue(fr, u.Elem(), load(u.Elem(), &sl[k]), &sl[k], depth+1))
+		}
+		return n
+	case *types.Array:
+		a := v.(array)
+		n := &jnode{kind: jArr, arr: []*jnode{}}
+		for k := range a {
+			var ea *value
+			if addr != nil {
+				ea = &(*addr).(array)[k]
+			}
+			n.arr = append(n.arr, i.marshalValue(fr, u.Elem(), a[k], ea, depth+1))
+		}
+		return n
+	case *types.Map:
+		m := v.(*omap)
+		if m == nil {
+			return &jnode{kind: jNull}
+		}
+		type kv struct {
+			k string
+			v value
+		}
+		var kvs []kv
+		for _, e := range m.ents {
+			if e.deleted {
+				continue
+			}
+			kvs = append(kvs, kv{mapKeyString(u.Key(), e.key), e.val})
+		}
+		sort.Slice(kvs, func(a, b int) bool { return kvs[a].k < kvs[b].k })
+		n := &jnode{kind: jObj}
+		for _, e := range kvs {
+			n.keys = append(n.keys, e.k)
+			n.vals = append(n.vals, i.marshalValue(fr, u.Elem(), e.v, nil, depth+1))
+		}
+		return n
+	}
+	panic(jsonMarshalErr{i.jsonErr("UnsupportedTypeError", "unsupported type: "+t.String())})
+}
+
+func mapKeyString(kt types.Type, k value) string {
+	if containsSym(k) {
+		unsupportedf("json: symbolic map key")
+	}
+	switch x := k.(type) {
+	case string:
+		return x
+	}
+	if ck, ok := concKind(k); ok && kindIsInt(ck) {
+		if kindSigned(ck) {
+			return strconv.FormatInt(asInt64(k), 10)
+		}
+		return strconv.FormatUint(bitsOf(k), 10)
+	}
+	panic(jsonMarshalErr{nil})
+}
+
+// walkIndex follows a field index path through embedded structs.
+func walkIndex(t types.Type, s structure, addr *value, index []int) (types.Type, value, *value, bool) {
+	curT := t
+	var cur value = s
+	curAddr := addr
+	for n, k := range index {
+		if n > 0 {
+			if pt, ok := curT.Underlying().(*types.Pointer); ok {
+				p := cur.(*value)
+				if p == nil {
+					return nil, nil, nil, false
+				}
+				curT, cur, curAddr = pt.Elem(), *p, p
+			}
+		}
+		st := curT.Underlying().(*types.Struct)
+		cs := cur.(structure)
+		curT = st.Field(k).Type()
+		if curAddr != nil {
+			curAddr = &(*curAddr).(structure)[k]
+		}
+		cur = cs[k]
+	}
+	return curT, cur, curAddr, true
+}
+
+func (i *interpreter) callMarshaler(fr *frame, m *ssa.Function, recv value) *jnode {
+	res := call(i, fr, token.NoPos, m, []value{recv})
+	tp := res.(tuple)
+	if e := tp[1].(iface); e.t != nil {
+		panic(jsonMarshalErr{iface{t: i.env.libPtrType("encoding/json", "MarshalerError"), v: &modelErr{msg: "json: error calling MarshalJSON: " + i.errString(e), wraps: []value{e}}}})
+	}
+	data, _ := tp[0].([]value)
+	blob := blobOf(data)
+	if blob == nil {
+		raw := make([]byte, len(data))
+		for k, b := range data {
+			raw[k] = b.(uint8)
+		}
+		blob = &jsonBlob{raw: raw}
+	}
+	n, err := i.blobTree(blob)
+	if err != nil {
+		panic(jsonMarshalErr{i.jsonErr("SyntaxError", err.Error())})
+	}
+	return n
+}
+
+func (i *interpreter) blobTree(b *jsonBlob) (*jnode, error) {
+	if b.garbage {
+		return nil, fmt.Errorf("invalid character '\\x1f' looking for beginning of value")
+	}
+	if b.node != nil {
+		return b.node, nil
+	}
+	return parseRaw(b.raw)
+}
+
+func (i *interpreter) jsonMarshal(fr *frame, arg value) (res value) {
+	defer func() {
+		if r := recover(); r != nil {
+			if me, ok := r.(jsonMarshalErr); ok {
+				err := me.err
+				if err == nil {
+					err = i.jsonErr("UnsupportedTypeError", "unsupported map key")
+				}
+				res = tuple{[]value(nil), err}
+				return
+			}
+			panic(r)
+		}
+	}()
+	it := arg.(iface)
+	var n *jnode
+	if it.t == nil {
+		n = &jnode{kind: jNull}
+	} else {
+		n = i.marshalValue(fr, it.t, it.v, nil, 0)
+	}
+	return tuple{[]value{&jsonBlob{node: n}}, iface{}}
+}
+
+// ---------- unmarshal ----------
+
+type unmarshalState struct {
+	i     *interpreter
+	fr    *frame
+	first value // first UnmarshalTypeError
+}
+
+func (u *unmarshalState) typeErr(what string, t types.Type) {
+	if u.first == nil {
+		u.first = u.i.jsonErr("UnmarshalTypeError", "cannot unmarshal "+what+" into Go value of type "+t.String())
+	}
+}
+
+type jsonAbort struct{ err value }
+
+func nodeKindName(n *jnode) string {
+	return [...]string{"null", "bool", "number", "string", "array", "object", "string"}[n.kind]
+}
+
+// numberInto converts a JSON number node into basic kind dst.
+func (u *unmarshalState) numberInto(n *jnode, dstT types.Type, dst types.BasicKind) (value, bool) {
+	if n.numText != "" {
+		switch {
+		case kindIsFloat(dst):
+			f, err := strconv.ParseFloat(n.numText, kindWidth(dst))
+			if err != nil {
+				u.typeErr("number "+n.numText, dstT)
+				return nil, false
+			}
+			return fromBits(dst, func() uint64 {
+				if dst == types.Float32 {
+					return bitsOf(float32(f))
+				}
+				return bitsOf(f)
+			}()), true
+		case kindSigned(dst):
+			x, err := strconv.ParseInt(n.numText, 10, kindWidth(dst))
+			if err != nil {
+				u.typeErr("number "+n.numText, dstT)
+				return nil, false
+			}
+			return fromBits(dst, uint64(x)), true
+		default:
+			x, err := strconv.ParseUint(n.numText, 10, kindWidth(dst))
+			if err != nil {
+				u.typeErr("number "+n.numText, dstT)
+				return nil, false
+			}
+			return fromBits(dst, x), true
+		}
+	}
+	var src types.BasicKind
+	if sv, ok := n.num.(symv); ok {
+		src = sv.k
+	} else {
+		src, _ = concKind(n.num)
+	}
+	if src == dst {
+		return n.num, true
+	}
+	i := u.i
+	switch {
+	case kindIsInt(src) && kindIsFloat(dst):
+		// strconv.ParseFloat rounds the exact decimal to nearest-even
+		return conv(types.Typ[dst], types.Typ[src], n.num), true
+	case kindIsInt(src) && kindIsInt(dst):
+		// exact when it fits, otherwise UnmarshalTypeError
+		back := conv(types.Typ[dst], types.Typ[src], n.num)
+		fits := i.intFits(src, dst, n.num)
+		if i.condBool(fits, "json-int-range") {
+			return back, true
+		}
+		u.typeErr("number", dstT)
+		return nil, false
+	case src == types.Float32 && dst == types.Float64:
+		unsupportedf("json: float32 value decoded as float64 (shortest-decimal re-parse not modelled)")
+	case src == types.Float64 && dst == types.Float32:
+		return conv(types.Typ[dst], types.Typ[src], n.num), true
+	case kindIsFloat(src) && kindIsInt(dst):
+		if _, ok := n.num.(symv); ok {
+			unsupportedf("json: symbolic float decoded into an integer")
+		}
+		txt := strconv.FormatFloat(func() float64 {
+			if f, ok := n.num.(float64); ok {
+				return f
+			}
+			return float64(n.num.(float32))
+		}(), 'g', -1, 64)
+		return u.numberInto(&jnode{kind: jNum, numText: txt}, dstT, dst)
+	}
+	unsupportedf("json number %v into %v", src, dst)
+	return nil, false
+}
+
+// intFits: does integer x of kind src fit kind dst?
+func (i *interpreter) intFits(src, dst types.BasicKind, x value) value {
+	ws, wd := kindWidth(src), kindWidth(dst)
+	ss, sd := kindSigned(src), kindSigned(dst)
+	t, _ := termOf(x)
+	// widen both to 65-bit signed comparison via explicit bounds
+	var lo, hi *Term // constraints on x in its own kind
+	cond := mkBool(true)
+	switch {
+	case ss && sd:
+		if wd >= ws {
+			return true
+		}
+		lo = mkBV(ws, uint64(-(int64(1) << uint(wd-1))))
+		hi = mkBV(ws, uint64((int64(1)<<uint(wd-1))-1))
+		cond = tAnd(mkApp(sortBool, "bvsle", lo, t), mkApp(sortBool, "bvsle", t, hi))
+	case !ss && !sd:
+		if wd >= ws {
+			return true
+		}
+		hi = mkBV(ws, mask(wd))
+		cond = mkApp(sortBool, "bvule", t, hi)
+	case ss && !sd:
+		cond = mkApp(sortBool, "bvsge", t, mkBV(ws, 0))
+		if wd < ws {
+			cond = tAnd(cond, mkApp(sortBool, "bvule", t, mkBV(ws, mask(wd))))
+		}
+	default: // unsigned -> signed
+		if wd > ws {
+			return true
+		}
+		cond = mkApp(sortBool, "bvule", t, mkBV(ws, mask(wd-1)))
+	}
+	if cond.IsConst {
+		return cond.CBits == 1
+	}
+	if t.IsConst {
+		// evaluate concretely
+		v := t.CBits
+		switch {
+		case ss && sd:
+			x := int64(v<<(64-uint(ws))) >> (64 - uint(ws))
+			return x >= -(int64(1)<<uint(wd-1)) && x <= (int64(1)<<uint(wd-1))-1
+		case !ss && !sd:
+			return v <= mask(wd)
+		case ss && !sd:
+			x := int64(v<<(64-uint(ws))) >> (64 - uint(ws))
+			return x >= 0 && uint64(x) <= mask(wd)
+		default:
+			return v <= mask(wd-1)
+		}
+	}
+	return symv{types.Bool, cond}
+}
+
+// generic decodes a node into interface{}.
+func (u *unmarshalState) generic(n *jnode) value {
+	i := u.i
+	switch n.kind {
+	case jNull:
+		return iface{}
+	case jBool:
+		return iface{t: types.Typ[types.Bool], v: n.b}
+	case jNum:
+		f, _ := u.numberInto(n, types.Typ[types.Float64], types.Float64)
+		if f == nil {
+			panic(jsonAbort{u.first})
+		}
+		return iface{t: types.Typ[types.Float64], v: f}
+	case jStr:
+		return iface{t: types.Typ[types.String], v: n.str}
+	case jTime:
+		unsupportedf("json: time string decoded into interface{}")
+	case jArr:
+		out := make([]value, len(n.arr))
+		for k, e := range n.arr {
+			out[k] = u.generic(e)
+		}
+		return iface{t: types.NewSlice(emptyIface()), v: out}
+	case jObj:
+		m := makeMap(types.Typ[types.String], 0).(*omap)
+		for k := range n.keys {
+			m.insert(i, n.keys[k], u.generic(n.vals[k]))
+		}
+		return iface{t: types.NewMap(types.Typ[types.String], emptyIface()), v: m}
+	}
+	panic("generic")
+}
+
+var emptyIfaceT = types.NewInterfaceType(nil, nil).Complete()
+
+func emptyIface() types.Type { return emptyIfaceT }
+
+// decode stores node n into the cell at addr of static type t.
+func (u *unmarshalState) decode(n *jnode, t types.Type, addr *value, depth int) {
+	i := u.i
+	if depth > 60 {
+		unsupportedf("json.Unmarshal recursion too deep")
+	}
+	// Unmarshaler on *T
+	if _, isIface := t.Underlying().(*types.Interface); !isIface {
+		pt := types.NewPointer(t)
+		if _, isPtr := t.Underlying().(*types.Pointer); !isPtr {
+			if m := i.findMethod(pt, "UnmarshalJSON"); m != nil {
+				if n.kind == jNull && !i.hasMethodOnValue(t) {
+					// encoding/json skips null for non-pointer Unmarshalers? (it calls UnmarshalJSON for null only on pointers that are non-nil); literal null is a no-op here
+				}
+				res := call(i, u.fr, token.NoPos, m, []value{addr, []value{&jsonBlob{node: n}}})
+				if e := res.(iface); e.t != nil {
+					panic(jsonAbort{e})
+				}
+				return
+			}
+		}
+	}
+	if isTimeType(t) {
+		switch n.kind {
+		case jNull:
+			return
+		case jTime:
+			store(t, addr, copyVal(n.timeV))
+			return
+		case jStr:
+			unsupportedf("json: time parsed from text")
+		}
+		u.typeErr(nodeKindName(n), t)
+		return
+	}
+	switch ut := t.Underlying().(type) {
+	case *types.Pointer:
+		if n.kind == jNull {
+			*addr = (*value)(nil)
+			return
+		}
+		p := (*addr).(*value)
+		if p == nil {
+			cell := zero(ut.Elem())
+			p = &cell
+			*addr = p
+		}
+		u.decode(n, ut.Elem(), p, depth+1)
+	case *types.Interface:
+		if n.kind == jNull {
+			*addr = iface{}
+			return
+		}
+		it := (*addr).(iface)
+		if it.t != nil {
+			if pt, ok := it.t.Underlying().(*types.Pointer); ok {
+				if p := it.v.(*value); p != nil {
+					u.decode(n, pt.Elem(), p, depth+1)
+					return
+				}
+			}
+		}
+		if ut.NumMethods() != 0 {
+			u.typeErr(nodeKindName(n), t)
+			return
+		}
+		*addr = u.generic(n)
+	case *types.Basic:
+		switch {
+		case n.kind == jNull:
+			return
+		case ut.Kind() == types.Bool:
+			if n.kind != jBool {
+				u.typeErr(nodeKindName(n), t)
+				return
+			}
+			*addr = n.b
+		case ut.Kind() == types.String:
+			if n.kind != jStr {
+				u.typeErr(nodeKindName(n), t)
+				return
+			}
+			*addr = n.str
+		case ut.Info()&types.IsNumeric != 0:
+			if n.kind != jNum {
+				u.typeErr(nodeKindName(n), t)
+				return
+			}
+			if v, ok := u.numberInto(n, t, ut.Kind()); ok {
+				*addr = v
+			}
+		default:
+			u.typeErr(nodeKindName(n), t)
+		}
+	case *types.Struct:
+		if n.kind == jNull {
+			return
+		}
+		if n.kind != jObj {
+			u.typeErr(nodeKindName(n), t)
+			return
+		}
+		fields := structFields(t)
+		for k, key := range n.keys {
+			var jf *jsonField
+			for f := range fields {
+				if fields[f].name == key {
+					jf = &fields[f]
+					break
+				}
+			}
+			if jf == nil {
+				for f := range fields {
+					if strings.EqualFold(fields[f].name, key) {
+						jf = &fields[f]
+						break
+					}
+				}
+			}
+			if jf == nil {
+				continue
+			}
+			ft, faddr := u.fieldAddr(t, addr, jf.index)
+			if faddr == nil {
+				continue
+			}
+			u.decode(n.vals[k], ft, faddr, depth+1)
+		}
+	case *types.Slice:
+		if n.kind == jNull {
+			*addr = []value(nil)
+			return
+		}
+		if b, ok := ut.Elem().Underlying().(*types.Basic); ok && b.Kind() == types.Byte && n.kind == jStr {
+			unsupportedf("json: base64 []byte decoding")
+		}
+		if n.kind != jArr {
+			u.typeErr(nodeKindName(n), t)
+			return
+		}
+		out := make([]value, len(n.arr))
+		for k := range out {
+			out[k] = zero(ut.Elem())
+			u.decode(n.arr[k], ut.Elem(), &out[k], depth+1)
+		}
+		*addr = out
+	case *types.Array:
+		if n.kind == jNull {
+			return
+		}
+		if n.kind != jArr {
+			u.typeErr(nodeKindName(n), t)
+			return
+		}
+		a := (*addr).(array)
+		for k := range a {
+			if k < len(n.arr) {
+				u.decode(n.arr[k], ut.Elem(), &a[k], depth+1)
+			} else {
+				a[k] = zero(ut.Elem())
+			}
+		}
+	case *types.Map:
+		if n.kind == jNull {
+			*addr = (*omap)(nil)
+			return
+		}
+		if n.kind != jObj {
+			u.typeErr(nodeKindName(n), t)
+			return
+		}
+		m := (*addr).(*omap)
+		if m == nil {
+			m = makeMap(ut.Key(), 0).(*omap)
+			*addr = m
+		}
+		for k, key := range n.keys {
+			var kv value
+			switch kb := ut.Key().Underlying().(type) {
+			case *types.Basic:
+				switch {
+				case kb.Kind() == types.String:
+					kv = key
+				case kb.Info()&types.IsInteger != 0:
+					var err error
+					if kindSigned(kb.Kind()) {
+						var x int64
+						x, err = strconv.ParseInt(key, 10, kindWidth(kb.Kind()))
+						kv = fromBits(kb.Kind(), uint64(x))
+					} else {
+						var x uint64
+						x, err = strconv.ParseUint(key, 10, kindWidth(kb.Kind()))
+						kv = fromBits(kb.Kind(), x)
+					}
+					if err != nil {
+						u.typeErr("number "+key, ut.Key())
+						continue
+					}
+				}
+			}
+			if kv == nil {
+				u.typeErr("object", t)
+				return
+			}
+			cell := zero(ut.Elem())
+			u.decode(n.vals[k], ut.Elem(), &cell, depth+1)
+			m.insert(i, kv, cell)
+		}
+	default:
+		u.typeErr(nodeKindName(n), t)
+	}
+}
+
+func (i *interpreter) hasMethodOnValue(t types.Type) bool { return false }
+
+// fieldAddr resolves an index path to the address of the field,
+// allocating nil embedded pointers on the way.
+func (u *unmarshalState) fieldAddr(t types.Type, addr *value, index []int) (types.Type, *value) {
+	curT, cur := t, addr
+	for n, k := range index {
+		if n > 0 {
+			if pt, ok := curT.Underlying().(*types.Pointer); ok {
+				p := (*cur).(*value)
+				if p == nil {
+					cell := zero(pt.Elem())
+					p = &cell
+					*cur = p
+				}
+				curT, cur = pt.Elem(), p
+			}
+		}
+		st := curT.Underlying().(*types.Struct)
+		cur = &(*cur).(structure)[k]
+		curT = st.Field(k).Type()
+	}
+	return curT, cur
+}
+
+func (i *interpreter) jsonUnmarshal(fr *frame, data value, target value) (res value) {
+	d, _ := data.([]value)
+	blob := blobOf(d)
+	if blob == nil {
+		raw := make([]byte, len(d))
+		for k, b := range d {
+			c, ok := b.(uint8)
+			if !ok {
+				unsupportedf("json.Unmarshal of symbolic raw bytes")
+			}
+			raw[k] = c
+		}
+		blob = &jsonBlob{raw: raw}
+	}
+	n, err := i.blobTree(blob)
+	if err != nil {
+		msg := err.Error()
+		if len(blob.raw) == 0 && !blob.garbage {
+			msg = "unexpected end of JSON input"
+		}
+		return i.jsonErr("SyntaxError", msg)
+	}
+	it := target.(iface)
+	if it.t == nil {
+		return i.jsonErr("InvalidUnmarshalError", "Unmarshal(nil)")
+	}
+	pt, ok := it.t.Underlying().(*types.Pointer)
+	if !ok {
+		return i.jsonErr("InvalidUnmarshalError", "Unmarshal(non-pointer "+it.t.String()+")")
+	}
+	p := it.v.(*value)
+	if p == nil {
+		return i.jsonErr("InvalidUnmarshalError", "Unmarshal(nil "+it.t.String()+")")
+	}
+	u := &unmarshalState{i: i, fr: fr}
+	defer func() {
+		if r := recover(); r != nil {
+			if a, ok := r.(jsonAbort); ok {
+				res = a.err
+				return
+			}
+			panic(r)
+		}
+	}()
+	u.decode(n, pt.Elem(), p, 0)
+	if u.first != nil {
+		return u.first
+	}
+	return iface{}
+}
+
+func init() {
+	reg("encoding/json.Marshal", func(i *interpreter, fr *frame, args []value) value {
+		return i.jsonMarshal(fr, args[0])
+	})
+	reg("encoding/json.MarshalIndent", func(i *interpreter, fr *frame, args []value) value {
+		return i.jsonMarshal(fr, args[0])
+	})
+	reg("encoding/json.Unmarshal", func(i *interpreter, fr *frame, args []value) value {
+		return i.jsonUnmarshal(fr, args[0], args[1])
+	})
+	for _, t := range []string{"SyntaxError", "UnmarshalTypeError", "InvalidUnmarshalError", "UnsupportedTypeError", "UnsupportedValueError", "MarshalerError"} {
+		reg("(*encoding/json."+t+").Error", func(i *interpreter, fr *frame, args []value) value {
+			return args[0].(*modelErr).msg
+		})
+	}
 }
